@@ -148,8 +148,11 @@ func TestVtraceWorkload(t *testing.T) {
 	}
 	which := os.Getenv("VERIF_VT_ROUTINES") // comma list; empty = all
 	want := func(r string) bool {
-		if !asmDirectAvailable && (r == "sealAsm" || r == "openAsm" || r == "copyAsm" || r == "needExpand") {
+		if !asmDirectAvailable && (r == "sealAsm" || r == "openAsm") {
 			return false // their declarations are not the ones the monitors were written for (tag verifnoasm)
+		}
+		if !asmHelpersAvailable && (r == "copyAsm" || r == "needExpand") {
+			return false // helper gone or declared differently on this tree (tag verifnohelpers)
 		}
 		return which == "" || strings.Contains(","+which+",", ","+r+",")
 	}
